@@ -7,6 +7,7 @@ pub mod capture;
 pub mod util;
 
 pub mod c10;
+pub mod c11;
 pub mod c12;
 
 use util::Args;
@@ -21,6 +22,7 @@ pub fn main(argv: &[String]) -> i32 {
   let args = Args::parse(&argv[1..]);
   match argv[0].as_str() {
     "c10" => c10::run(&args),
+    "c11" => c11::run(&args),
     "c12" => c12::run(&args),
     other => {
       eprintln!("unknown property driver {other}");
